@@ -306,12 +306,16 @@ static std::vector< std::array< int, 3 > > layouts_of(const int grid[3]) {
   return L;
 }
 
-static thread_local char g_current[1024];
+// the case a thread is working on (printed if the code under test aborts)
+static thread_local const Case *g_current = nullptr;
 static void on_abort(int) {
   const char msg[] = "\nC04 harness: the code under test called abort() in case: ";
   if (write(2, msg, sizeof(msg) - 1) < 0) {
   }
-  if (write(2, g_current, strlen(g_current)) < 0) {
+  if (g_current) {
+    const std::string js = case_json(*g_current);
+    if (write(2, js.c_str(), js.size()) < 0) {
+    }
   }
   if (write(2, "\n", 1) < 0) {
   }
@@ -385,7 +389,7 @@ int main(int argc, char **argv) {
   Args A = parse_args(argc, argv);
   Result R(A);
   signal(SIGABRT, on_abort);
-  g_current[0] = 0;
+  g_current = nullptr;
   if (!A.replay.empty())
     return replay(A, R);
 
@@ -499,7 +503,7 @@ int main(int argc, char **argv) {
             c.idt = idt;
             c.order = (int)((ic + il + ig + (uint64_t)A.seed) % ORDER_NUMBER);
             c.seed = ic * 12 + ig * 3 + idt;
-            snprintf(g_current, sizeof(g_current), "%s", case_json(c).c_str());
+            g_current = &c;
             run_case(*drivers[il], hydro, prims, c, ref, o);
             ++S.steps;
             ++S.order_count[c.order];
@@ -523,7 +527,7 @@ int main(int argc, char **argv) {
     }
     item_done[ii] = 1;
   }
-  g_current[0] = 0;
+  g_current = nullptr;
 
   Stats T;
   for (auto &s : stats)
